@@ -471,6 +471,44 @@ func nilness(v ssa.Value, at *ssa.BasicBlock) int {
 		return unknownNil // a typed nil pointer in an interface is still a non-nil interface, but stay modest
 	case *ssa.Alloc, *ssa.MakeMap, *ssa.MakeSlice, *ssa.MakeChan, *ssa.MakeClosure, *ssa.Function:
 		return isNonNil
+	case *ssa.Call:
+		if n := calleeName(&x.Call); n == "fmt.Errorf" || n == "errors.New" {
+			return isNonNil // both always build an error value
+		}
+	}
+	// … or because a dominating branch on v decided it: a successor of that branch which has the
+	// branch as its only predecessor and dominates `at` can only have been entered over that edge
+	for depth, d := 0, at; depth < 16 && d != nil; depth, d = depth+1, d.Idom() {
+		p := d.Idom()
+		if p == nil || len(p.Instrs) == 0 || len(p.Succs) != 2 || p.Succs[0] == p.Succs[1] {
+			continue
+		}
+		ifi, ok := p.Instrs[len(p.Instrs)-1].(*ssa.If)
+		if !ok {
+			continue
+		}
+		for si := 0; si < 2; si++ {
+			sc := p.Succs[si]
+			if len(sc.Preds) != 1 || !sc.Dominates(at) {
+				continue
+			}
+			l := litOf(ifi.Cond, si == 0)
+			if l.Op != token.EQL && l.Op != token.NEQ {
+				continue
+			}
+			a, c := l.X, l.Y
+			if strip(c) == strip(v) {
+				a, c = c, a
+			}
+			k, isC := strip(c).(*ssa.Const)
+			if strip(a) != strip(v) || !isC || k.Value != nil || isBasicType(k.Type()) {
+				continue
+			}
+			if l.Op == token.EQL {
+				return isNil
+			}
+			return isNonNil
+		}
 	}
 	for depth, b := 0, at; depth < 4 && b != nil && len(b.Preds) == 1; depth, b = depth+1, b.Preds[0] {
 		p := b.Preds[0]
